@@ -102,7 +102,9 @@ def _non_default_config(hp_range: Domain) -> Hyperparameter:
     midpoint = hp_range.cast(midpoint)
     lower = hp_range.value_type(lower)
     upper = hp_range.value_type(upper)
-    midpoint = np.clip(midpoint, lower, upper)
+    # ``np.clip`` returns a NumPy scalar: cast back to the value type of the
+    # domain
+    midpoint = hp_range.cast(np.clip(midpoint, lower, upper))
     return midpoint
 
 
